@@ -147,8 +147,7 @@ func (s *System) Start() error {
 	// 守护系统上下文
 	go func() {
 		<-s.options.Context.Done()
-		s.statusLock.Lock()
-		defer s.statusLock.Unlock()
+		// stop 内部自行获取 statusLock，此处不可再持有该锁，否则会自锁且阻塞后续的 Start/Stop 调用
 		_ = s.stop(false) // 无意义错误
 	}()
 	return nil
